@@ -1,19 +1,23 @@
 #!/venv/bin/python
-"""tools/fixed.py <ID> <commit> <signature> : move a staged finding to the 'fixed' list."""
+"""tools/fixed.py <ID> <commit> <signature> : move a recorded finding (known_findings.json, or a
+staging file known/<ID>.json) to the 'fixed' list."""
 import json, sys, os
 ROOT = os.path.dirname(os.path.dirname(os.path.abspath(__file__)))
 pid, commit, sig = sys.argv[1:4]
-kp = os.path.join(ROOT, "known", pid + ".json")
-d = json.load(open(kp))
-hit = [f for f in d["findings"] if f["signature"] == sig]
-assert hit, "no such signature"
-d["findings"] = [f for f in d["findings"] if f["signature"] != sig]
-if d["findings"]:
-    json.dump(d, open(kp, "w"), indent=1)
-else:
-    os.remove(kp)
 p = os.path.join(ROOT, "known_findings.json")
 k = json.load(open(p))
+hit = [f for f in k["findings"] if f["property"] == pid and f["signature"] == sig]
+k["findings"] = [f for f in k["findings"] if not (f["property"] == pid and f["signature"] == sig)]
+kp = os.path.join(ROOT, "known", pid + ".json")
+if os.path.exists(kp):
+    d = json.load(open(kp))
+    hit += [f for f in d["findings"] if f["signature"] == sig]
+    d["findings"] = [f for f in d["findings"] if f["signature"] != sig]
+    if d["findings"]:
+        json.dump(d, open(kp, "w"), indent=1)
+    else:
+        os.remove(kp)
+assert hit, "no such signature"
 k["fixed"].append("fixed: property=%s %s %s [%s]" % (pid, commit, hit[0]["what"], sig))
 json.dump(k, open(p, "w"), indent=1)
 print("ok")
